@@ -156,6 +156,26 @@ def gen_value(rnd, env, t, max_len=5, depth=0):
     return ("struct", out)
 
 
+def with_tail_len(rnd, env, t, value, k):
+    """The value with its greedy tail (the last member, followed through nested
+    unlimited structs) made k elements long; None if there is no such tail."""
+    b = env.base(t)
+    if b["k"] != "ref" or env.d(b["i"])["k"] != "struct" or not env.d(b["i"])["ms"]:
+        return None
+    m = env.d(b["i"])["ms"][-1]
+    members = list(value[1])
+    if m["f"] == "greedy":
+        members[-1] = [gen_value(rnd, env, m["t"], 2, 2) for _ in range(k)]
+    elif m["f"] == "plain":
+        inner = with_tail_len(rnd, env, m["t"], members[-1], k)
+        if inner is None:
+            return None
+        members[-1] = inner
+    else:
+        return None
+    return ("struct", members)
+
+
 def gen_env_roles(rnd):
     """A small environment with FIXED type names in fixed roles: T1 and T2 are
     drawn from a menu of leaf types of every alignment and kind, T3 uses them
@@ -287,6 +307,40 @@ def gen_env_shared_sizer(rnd):
         if rnd.random() < 0.3:
             ms.append(M("plain", I(rnd.choice([1, 2, 8]))))
     return [elem, S.StructDef(ms)]
+
+
+def gen_env_tails(rnd):
+    """A struct that ENDS in a member of unlimited struct type (a struct whose
+    last member is a greedy array, possibly wrapped once more), behind fixed
+    members of mixed alignment and sometimes a dynamic array: how the fixed
+    part, the tail and the struct's own alignment meet is what this family
+    concentrates on (static end padding vs. padding to the alignment)."""
+    I, M, R = S.Int, S.Mem, S.Ref
+    widths = [1, 2, 4, 8]
+    # two draws in three: a wide member first, narrow ones and a narrow tail behind it - the fixed part then ends
+    # short of the struct's alignment
+    biased = rnd.random() < 0.67
+    tail_widths = [1, 2] if biased else widths
+    defs = [S.StructDef([M("plain", I(rnd.choice(tail_widths))) for _ in range(rnd.randint(0, 2))] +
+                        [M("greedy", rnd.choice([I(w) for w in tail_widths] + [S.BYTE]))])]
+    if rnd.random() < 0.35:
+        defs.append(S.StructDef([M("plain", I(rnd.choice(tail_widths))) for _ in range(rnd.randint(0, 2))] + [M("plain", R(1))]))
+    ms = []
+    if biased:
+        ms.append(M("plain", I(rnd.choice([4, 8]))))
+    for _ in range(rnd.randint(1, 3)):
+        r = rnd.random()
+        if r < 0.6:
+            ms.append(M("plain", I(rnd.choice(tail_widths))))
+        elif r < 0.75:
+            ms.append(M("opt", I(rnd.choice(widths))))
+        elif r < 0.9:
+            ms.append(M("fixed", I(rnd.choice([1, 2])), rnd.randint(1, 3)))
+        else:
+            ms.append(M("dyn", I(rnd.choice([1, 2, 4]))))
+    ms.append(M("plain", R(len(defs))))
+    defs.append(S.StructDef(ms))
+    return defs
 
 
 def gen_env_blocks(rnd):
